@@ -50,7 +50,8 @@ Inductive pform :=
 | PIn (x : Z) (t : expr)                           (* #x in t *)
 | PCall (t : expr) (x : Z) (args : list expr)      (* t.#x(args) *)
 | PArith (op : binop) (t : expr) (x : Z) (v : expr) (* t.#x -= v (any strict operator), t.#x **= v *)
-| PLog (op : lop) (t : expr) (x : Z) (v : expr).   (* t.#x ??= v, ||=, &&= *)
+| PLog (op : lop) (t : expr) (x : Z) (v : expr)    (* t.#x ??= v, ||=, &&= *)
+| PTarget (t : expr) (x : Z).                      (* t.#x as the target of a destructuring element ([t.#x = d] = ...) or of for-in/of *)
 
 (* what esbuild emits *)
 Inductive pexp :=
@@ -64,7 +65,8 @@ Inductive pexp :=
 | HPow (a b : pexp)                                (* __pow(a, b) *)
 | HIf (c a b : pexp)
 | HNeNull (e : pexp)                               (* e != null *)
-| HTmpSet (n : Z) (e : pexp).                      (* _n = e *)
+| HTmpSet (n : Z) (e : pexp)                       (* _n = e *)
+| HWrapper (t : pexp) (st : Z) (sr : option Z).    (* __privateWrapper(t, st [, sr])._  (an assignment target) *)
 
 Definition is_const_value (e : expr) : bool :=
   match e with ENull | EUndef | EThis | EBool _ | ENum _ | EStr _ => true | _ => false end.
@@ -121,6 +123,13 @@ Section PLower.
             else (HBin BNullish left right, n1)
         | _ => (HBin (lop_bin op) left right, n1)
         end
+    | PTarget t x =>
+        (* lowerSuperPropertyOrPrivateInAssign: the setter is passed, a getter never *)
+        let p := names x in
+        (match pn_kind p with
+         | KSet | KGetSet => HWrapper (PE t) (pn_store p) (Some (pn_setter p))
+         | KField | KMethod | KGet => HWrapper (PE t) (pn_store p) None
+         end, n)
     end.
 End PLower.
 
@@ -152,6 +161,7 @@ Fixpoint pexp_eqb (a b : pexp) : bool :=
   | HIf c x y, HIf c' x' y' => pexp_eqb c c' && pexp_eqb x x' && pexp_eqb y y'
   | HNeNull e, HNeNull e' => pexp_eqb e e'
   | HTmpSet n e, HTmpSet n' e' => (n =? n') && pexp_eqb e e'
+  | HWrapper t st sr, HWrapper t' st' sr' => pexp_eqb t t' && (st =? st') && opt_eqb sr sr'
   | _, _ => false
   end.
 
@@ -183,6 +193,7 @@ Fixpoint pcanon (e : pexp) (m : list (Z * Z)) : pexp * list (Z * Z) :=
                  let '(b', m3) := pcanon b m2 in (HIf c' a' b', m3)
   | HNeNull x => let '(x', m1) := pcanon x m in (HNeNull x', m1)
   | HTmpSet n x => let '(k, m1) := canon_tmp n m in let '(x', m2) := pcanon x m1 in (HTmpSet k x', m2)
+  | HWrapper t st sr => let '(t', m1) := pcanon t m in (HWrapper t' st sr, m1)
   end.
 Definition pcanon_exp (e : pexp) : pexp := fst (pcanon e []).
 
@@ -345,6 +356,9 @@ Section PrivSem.
         else bind (peval b) (fun r2 => ret (ov (valof r2))))
     | HNeNull x => bind (peval x) (fun r => ret (ov (VBool (negb (nullish (valof r))))))
     | HTmpSet n x => bind (peval x) (fun r => fun m s => ([], tset m n (valof r), s, Ok (ov (valof r))))
+    (* evaluating the REFERENCE: the wrapper object is created, nothing is read;
+       the store through it is [ptarget] *)
+    | HWrapper t st sr => bind (peval t) (fun r => ret (ov VUndef))
     end.
 
   (* the source forms, natively *)
@@ -365,7 +379,22 @@ Section PrivSem.
     | PLog op t x v => bind (ev t) (fun r => bind (lift (n_get x (valof r))) (fun lv =>
         if lop_short op lv then ret (ov lv)
         else bind (ev v) (fun rv => bind (lift (n_set x (valof r) (valof rv))) (fun _ => ret (ov (valof rv))))))
+    | PTarget t x => bind (ev t) (fun r => ret (ov VUndef))      (* the reference t.#x: only t is evaluated *)
+    end.
+
+  (* an assignment target: evaluating the reference yields what a later
+     PutValue does.  Lowered: the setter "_" of the wrapper object,
+        set _(value) { __privateSet(obj, member, value, setter) }      (runtime.go) *)
+  Definition ptarget (e : pexp) : M S (val -> W unit) :=
+    match e with
+    | HWrapper t st sr => bind (peval t) (fun r => ret (fun v => wbind (h_set st (valof r) v sr) (fun _ => wret tt)))
+    | _ => ret (fun _ => wthrow)
+    end.
+  Definition ntarget (f : pform) : M S (val -> W unit) :=
+    match f with
+    | PTarget t x => bind (ev t) (fun r => ret (fun v => n_set x (valof r) v))
+    | _ => ret (fun _ => wthrow)
     end.
 End PrivSem.
 
-Arguments peval {U}. Arguments neval {U}.
+Arguments peval {U}. Arguments neval {U}. Arguments ptarget {U}. Arguments ntarget {U}.
